@@ -10,6 +10,8 @@ import PegVerif.Model.Machine
 import PegVerif.Model.Sem
 import PegVerif.Model.SwitchSafe
 import PegVerif.Proofs.SwitchSafeDef
+import PegVerif.Proofs.InlineSwitchSafeDef
+import PegVerif.Proofs.NoastSwitchSafeDef
 /-
   `pegmodel emit`: one JSON request per line `{"id","tree":[…],"opts":"isn"-subset}` → one JSON
   line `{"id","rules":[{"nil":bool,"code":[…]}],"error"?}` with the IR the *model* generator
@@ -70,9 +72,18 @@ def emitOne (line : String) : String :=
             ("plain", L.G.rules.all (fun r => r.body.plain))] |>.mergeObj
             -- -switch: the translation-validation check of `C02_switch_validated` (Eval-level equivalence
             -- of the optimiser's output with the original grammar)
-            (if o.switch then Json.mkObj [("swOK", swOK L.G G'), ("wfbSwitched", WFB G'),
-                ("grammarOKS", GrammarOKS G'), ("switchSafe", switchSafe L.G G'),
-                ("rewritten", G'.rules.any (fun r => r.body.hasNode (fun e => match e with | .ualt _ _ => true | _ => false)))]
+            (if o.switch then Json.mkObj ([("swOK", Json.bool (swOK L.G G')), ("wfbSwitched", Json.bool (WFB G')),
+                ("rewritten", Json.bool (G'.rules.any (fun r => r.body.hasNode (fun e => match e with | .ualt _ _ => true | _ => false))))] ++
+                -- the hypothesis of the end-to-end theorem for THIS option set
+                (if o.ast && !o.inline then [("grammarOKS", Json.bool (GrammarOKS G')), ("switchSafe", Json.bool (switchSafe L.G G'))]
+                 -- (these two re-expand / re-count per rule and are cubic in the number of rules: evaluated on
+                 -- grammars of at most 40 rules, reported as absent on larger ones)
+                 else if o.ast && o.inline && G'.rules.length ≤ 40 then [("inlineSwitchSafe", Json.bool (inlineSwitchSafe L.G G'))]
+                 else if !o.ast && !o.inline && G'.rules.length ≤ 40 then [("noastSwitchSafe", Json.bool (noastSwitchSafe L.G G')),
+                    -- the -noast fragment (no state-change statements, captures named PegText …) on the ORIGINAL grammar:
+                    -- where that fails the -noast theorems do not apply with or without -switch
+                    ("grammarOKN", Json.bool (GrammarOKN (Kall L.G) L.G))]
+                 else []))
              else Json.mkObj [])
           pure (Json.mkObj [("id", id), ("rules", programJson P), ("nilCase", nilCase),
             ("unusedLabel", unusedLabel), ("header", hj), ("hyps", hyps),
